@@ -183,10 +183,21 @@ def handle_next_frame(E):
                  E.lookup(FR + 'KeepAliveFrame'): SOpaque('callable', 'handle_keep_alive'),
                  E.lookup(FR + 'ErrorFrame'): SOpaque('callable', 'handle_error')}
     log.returns['__call__'] = lambda E_, o, m, a, k: (by_type.append((o, a)), aio.Awaitable('ready'))[1]
-    E.await_value(E.call(E.getattr(sock, '_handle_next_frame'), [f, table_arg]))
+    P = E.prove
+    try:
+        E.await_value(E.call(E.getattr(sock, '_handle_next_frame'), [f, table_arg]))
+    except PyExc as e:
+        # the only exception dispatch itself may raise: a request frame that reuses a live id is rejected (C13); where the
+        # library makes that check (here or in the per-type handler) is not part of the contract - see e.reuse_of_live_id
+        E.cover('rejected')
+        P('dispatch:raises_only_to_reject_a_request_that_reuses_a_live_id',
+          e.value.cls.issubclass(E.lookup('rsocket/exceptions.py::RSocketStreamIdInUse')) and kind == 'RequestResponseFrame'
+          and z3.Select(h0, I(sid)))
+        P('dispatch:rejected_request_delivered_nowhere', not [c for c in log.calls if c[0].kind == 'handler'] and not by_type)
+        P('dispatch:table_and_cache_untouched_by_dispatch', z3.And(table.has.eq(h0), ctable.has.eq(c0)))
+        return
     E.cover('dispatched')
     delivered = [c for c in log.calls if c[0].kind == 'handler']
-    P = E.prove
     P('dispatch:table_and_cache_untouched_by_dispatch', z3.And(table.has.eq(h0), ctable.has.eq(c0)))
     if kind == 'InvalidFrame':
         P('dispatch:invalid_marker_changes_nothing', not delivered and not by_type and not appended)
@@ -239,22 +250,22 @@ def _handle_request(kind):
                         may_raise=lambda o, m: o.kind == 'app-handler')
         P = E.prove
         x = z3.Int(E.path.fresh_name('sk.x'))
+        # requires: the id is free.  A request that reuses a live id is rejected before or inside this method - that clause is
+        # stated end to end at the receiver (e.reuse_of_live_id), so that it does not pin *where* the check is made.
+        E.assume(z3.Not(z3.Select(h0, I(sid))))
         try:
             E.await_value(E.call(E.getattr(sock, mname), [f]))
         except PyExc as e:
             E.cover('raised')
             calls = log.of(app)
             if e.value.cls.issubclass(E.lookup('rsocket/exceptions.py::RSocketStreamIdInUse')):
-                P('reuse:rejected_only_if_id_is_active', z3.Select(h0, I(sid)))
-                P('reuse:handler_not_invoked', not calls)
-                P('reuse:existing_stream_not_replaced', table.has.eq(h0) and not table.writes)
+                P('reuse:a_free_id_is_never_rejected', False)
             else:
                 P('request:other_exceptions_come_from_the_application_handler', len(calls) == 1 and 'from_opaque' in e.value.attrs)
                 P('request:failed_request_registers_nothing', table.has.eq(h0))
             return
         E.cover('accepted')
         calls = log.of(app)
-        P('request:accepted_only_if_id_is_free', z3.Not(z3.Select(h0, I(sid))))
         P('request:handler_method_of_that_type_invoked_once_with_the_frame_payload',
           len(calls) == 1 and calls[0][1] == hm and payload_is(E, calls[0][2][0], data, md))
         if kind == 'fnf':
@@ -477,3 +488,68 @@ def send_methods(E):
         E.prove('send_complete:one_empty_PAYLOAD_complete_without_next', len(sent) == 1 and is_frame(f, 'PayloadFrame') and E.getattr(f, 'stream_id') is sid
                 and E.getattr(f, 'flags_complete') is True and E.getattr(f, 'flags_next') is False and E.getattr(f, 'data') is None
                 and E.getattr(f, 'metadata') is None)
+
+
+# --------------------------------------------------------------------------- C13: reuse of a live id, end to end through the receiver
+
+def _reuse_end_to_end(kind, fragmented):
+    """A request frame whose id is still active arrives - as one frame, or as the frame that completes a fragmented
+    request (the reassembly contract of C03: the completing PAYLOAD makes the cache return the whole request frame).
+    The contract is stated at the receiver loop, so it does not depend on *where* the library checks the id."""
+    fcls = {'response': 'RequestResponseFrame', 'stream': 'RequestStreamFrame', 'channel': 'RequestChannelFrame',
+            'fnf': 'RequestFireAndForgetFrame'}[kind]
+
+    def run(E):
+        sock, table, ctable = mk_endpoint(E)
+        h0 = table.has
+        sid = E.fresh_int('sid', 1, 0x7FFFFFFF)
+        request = frame(E, fcls, sid, data=E.fresh_bytes('data'), metadata=E.fresh_bytes('md'))
+        if kind in ('stream', 'channel'):
+            E.setattr(request, 'initial_request_n', E.fresh_int('n', 1, 0x7FFFFFFF))
+        if fragmented:
+            arriving = frame(E, 'PayloadFrame', sid)                 # last fragment of the request
+            E.stubs[CACHE + '.append'] = lambda E_, fn, a, k: request if a[1] is arriving else a[1]
+        else:
+            arriving = request
+            E.stubs[CACHE + '.append'] = lambda E_, fn, a, k: a[1]
+        transport = SOpaque('transport', 'transport')
+        tf = aio.new_future(E, 'result', transport)
+        E.stubs[SERVER + '._current_transport'] = lambda E_, f, a, k: tf
+        rounds = [0]
+
+        def next_gen(E_, o, m, a, k):
+            rounds[0] += 1
+            return aio.Awaitable('ready', result=[arriving] if rounds[0] == 1 else None)
+        app = sock.attrs['_handler']
+        fut = aio.new_future(E)
+        pub = SOpaque('publisher', 'app-publisher')
+        subscription = SOpaque('subscription', 'app-subscription')
+        log = OpaqueLog(E, returns={'next_frame_generator': next_gen,
+                                    'request_response': lambda *a: aio.Awaitable('ready', result=fut),
+                                    'request_stream': lambda *a: aio.Awaitable('ready', result=pub),
+                                    'request_channel': lambda *a: aio.Awaitable('ready', result=(pub, SOpaque('subscriber', 'app-subscriber'))),
+                                    'request_fire_and_forget': lambda *a: aio.Awaitable('ready', result=None),
+                                    ('publisher', 'subscribe'): lambda E_, o, m, a, k: E_.call(E_.getattr(a[0], 'on_subscribe'), [subscription])})
+        errors = []
+        E.stubs[BASE + '.send_error'] = lambda E_, fn, a, k: errors.append((a[1], a[2]))
+        E.assume(z3.Select(h0, I(sid)))                              # the id is still active on this endpoint
+        E.await_value(E.call(E.getattr(E.lookup(BASE), '_receiver_listen'), [sock]))
+        E.cover('processed')
+        P = E.prove
+        P('reuse:application_handler_not_invoked', not log.of(app))
+        P('reuse:existing_stream_not_replaced', table.has.eq(h0) and not table.writes)
+        P('reuse:answered_with_exactly_one_ERROR_on_that_stream', len(errors) == 1 and errors[0][0] is sid)
+        if len(errors) == 1:
+            ex = errors[0][1]
+            P('reuse:error_is_REJECTED', isinstance(ex, SObj) and ex.cls.issubclass(E.lookup('rsocket/exceptions.py::RSocketStreamIdInUse'))
+              and ex.attrs.get('error_code') is E.lookup('rsocket/error_codes.py::ErrorCode').members['REJECTED'])
+    return run
+
+
+for _k in ('response', 'stream', 'channel', 'fnf'):
+    for _fr in (False, True):
+        harness('e.reuse_of_live_id[%s,%s]' % (_k, 'last-fragment' if _fr else 'single-frame'), ['C13', 'C12'],
+                functions=[RL, BASE + '._handle_next_frame', BASE + '._handle_frame_by_type', SC + '.assert_stream_id_available'],
+                assumptions=['reassembly is used through its C03 contract: the frame completing a fragmented request makes the cache '
+                             'return the whole request frame (class of the first fragment)',
+                             'send_error is used through its contract (e.send_payload_error_complete)'])(_reuse_end_to_end(_k, _fr))
